@@ -132,6 +132,8 @@ def match_known(ob, prop, known):
             continue
         if k.get("key") and k["key"] != ob.key:
             continue
+        if k.get("key_prefix") and not str(ob.key or "").startswith(k["key_prefix"]):
+            continue
         return k
     return None
 
